@@ -216,9 +216,20 @@ fn gen_function(rng: &mut Rng) -> Function {
         unique_addresses: rng.bool(),
         memory: true,
         intrinsics: true,
+        addr_base: 0x1000 + 0x20 * rng.below(6),
         ..GenOpts::default()
     };
-    ilgen::generate(rng, &o).f
+    let f = ilgen::generate(rng, &o).f;
+    // the function's own address need not be its lowest instruction address (cold parts placed
+    // before the entry): half of the functions are given the address of a later instruction
+    if rng.bool() {
+        let addrs: Vec<u64> = f.blocks().iter().flat_map(|b| b.instructions().iter().filter_map(|i| i.address())).collect();
+        if !addrs.is_empty() {
+            let a = addrs[rng.usize(addrs.len())] + if rng.chance(1, 4) { 0x100 } else { 0 };
+            return Function::new(a, f.control_flow_graph().clone());
+        }
+    }
+    f
 }
 
 impl Check for C18 {
